@@ -1,5 +1,6 @@
 CONSTANT W = 3
 CONSTANT MODE = "sign"
+CONSTANT RNG = 8
 SPECIFICATION Spec
 INVARIANT MulCorrect
 INVARIANT SignCorrect
